@@ -4,27 +4,26 @@
    and every bank entry as a flow equation ([at_ a d z a' d'] = z at entry (a, d), 0 elsewhere): buyer pays fee + pay, seller receives pay, the fee pool receives fee unless the denom is
    uregen, in which case the fee is burnt (bank supply falls by fee).  fee = SdkIntTrim(buyer fee + seller fee) when that sum is positive, else 0; pay = SdkIntTrim(subtotal - seller fee).
    C07_buy_one: every order of a BuyDirect is one such fill, after the listed checks (ask <= bid, denom match, max fee, funds), with subtotal, buyer fee and total cost as computed.
-   The *_partial theorems give the VALUES of those decimals as rationals: Mul is correct to 34 significant digits (round half up), Add / Sub are exact, SdkIntTrim truncates toward zero.
-   PARTIAL: they are stated per operation; they are not composed into one closed formula in quantity, ask price and rates, and the buyer-debit bound 'at most 1 unit more than the exact
-   total' for rates with more than 34 significant digits (finding F9) is not proved here.
-   Hypotheses of C07_fill_order: Inv_core, Inv_bound (Ledger/InvMarketLib.v), the order exists, the quantity is a positive gated amount, buyer <> seller (checked by buy_one). *)
+   CLOSED FORMULAS (Ledger/InvAllPay2.v), with X = quantity x ask price, b = buyer fee rate, r = seller fee rate as rationals: C07_settlement_exact -- when none of the three multiplications needs more than 34 significant digits: the seller is credited pay = floor(X(1-r)), the fee collected is fee = floor(X(b+r)), the buyer is debited fee + pay <= X(1+b), and total_cost - 1 <= fee + pay <= total_cost where total_cost = floor(X(1+b)) is the amount the funds check uses; C07_max_fee: the purchase needs floor(X b) <= max fee (0 if absent). C07_settlement_rounded -- the general case with explicit error terms (half a unit in the 34th digit per multiplication). REFUTED beyond 34 digits (finding F9, known finding *:beyond-34-digits): C07_buyer_debit_bound_refuted_beyond_34_digits exhibits fee rates with 37 decimals for which the buyer is debited MORE than X(1+b) (by 5e-31 of a base unit: Mul rounds half up). The *_partial theorems are the per-operation facts the closed formulas are composed from. Hypotheses of C07_fill_order: Inv_core, Inv_bound (Ledger/InvMarketLib.v), the order exists, the quantity is a positive gated amount, buyer <> seller (checked by buy_one). *)
 From stdpp Require Import gmap.
 From RecordUpdate Require Import RecordSet.
-From Coq Require Import ZArith NArith List Bool QArith Qabs Strings.Byte.
+From Coq Require Import ZArith NArith List Bool QArith Qabs Strings.Byte Strings.String.
 Require Import Regen.Base.Bytes Regen.Base.Calendar Regen.Dec.Dec Regen.Dec.DecProps Regen.Dec.DecRound.
 Require Import Regen.Ledger.Types Regen.Ledger.Msgs Regen.Ledger.Orm Regen.Ledger.BaseMsgs Regen.Ledger.BasketMsgs Regen.Ledger.MarketMsgs Regen.Ledger.Step.
 Require Import Regen.Ledger.Amount Regen.Ledger.MapSum Regen.Ledger.Inv Regen.Ledger.Fees.
 Require Import Regen.Ledger.InvMarketLib Regen.Ledger.InvMarketOrders Regen.Ledger.InvMarketFill Regen.Ledger.InvMarket.
-Require Import Regen.Ledger.InvAllPay.
+Require Import Regen.Ledger.InvAllPay Regen.Ledger.InvAllPay2.
 Import ListNotations RecordSetNotations.
 Local Open Scope Z_scope.
+Local Arguments b s%string_scope.
+Local Arguments with_rates (buyer seller)%string_scope s0.
 
 (* one filled order *)
 Theorem C07_fill_order : forall id o buyer q bf st ar denom s s',
   Inv_core s -> Inv_bound s -> sell_orders s !! id = Some o -> in_ok q -> 0 < U q -> buyer <> so_seller o ->
   fill_order id o buyer q bf st ar denom s = LOk s' ->
   let a := so_seller o in let k := so_batch_key o in
-  (* the order: partially filled or removed *)
+  
   U q <= order_units o /\
   (forall id0, id0 <> id -> sell_orders s' !! id0 = sell_orders s !! id0) /\
   match sell_orders s' !! id with
@@ -32,7 +31,7 @@ Theorem C07_fill_order : forall id o buyer q bf st ar denom s s',
   | Some o' => order_units o' = order_units o - U q /\ order_sim o o' /\ so_seller o' = so_seller o /\
                so_disable_auto_retire o' = so_disable_auto_retire o /\ so_expiration o' = so_expiration o
   end /\
-  (* credits: seller's escrow falls by q, buyer's tradable or retired balance rises by q *)
+  
   U (bl_escrowed (get_balance s' a k)) = U (bl_escrowed (get_balance s a k)) - U q /\
   bl_tradable (get_balance s' a k) = bl_tradable (get_balance s a k) /\
   bl_retired (get_balance s' a k) = bl_retired (get_balance s a k) /\
@@ -42,13 +41,13 @@ Theorem C07_fill_order : forall id o buyer q bf st ar denom s s',
    else U (bl_tradable (get_balance s' buyer k)) = U (bl_tradable (get_balance s buyer k)) + U q /\
         bl_retired (get_balance s' buyer k) = bl_retired (get_balance s buyer k)) /\
   (forall a' k', (a', k') <> (a, k) -> (a', k') <> (buyer, k) -> get_balance s' a' k' = get_balance s a' k') /\
-  (* supply: moved from tradable to retired exactly when the purchase auto-retires *)
+  
   (forall k', k' <> k -> supplies s' !! k' = supplies s !! k') /\
   (if ar then exists su su', supplies s !! k = Some su /\ supplies s' !! k = Some su' /\
                 U (su_tradable su') = U (su_tradable su) - U q /\ U (su_retired su') = U (su_retired su) + U q /\
                 su_cancelled su' = su_cancelled su
    else supplies s' !! k = supplies s !! k) /\
-  (* coins *)
+  
   exists rate sfee tfee payment fee pay,
     seller_rate s = LOk rate /\ mul st rate = Ok sfee /\ add bf sfee = Ok tfee /\ fee_amount tfee fee /\ 0 <= fee /\
     sub st sfee = Ok payment /\ sdk_int_trim payment = Ok pay /\ 0 <= pay /\
@@ -79,6 +78,142 @@ Theorem C07_buy_one : forall e buyer s r s',
 Proof. exact buy_one_inv. Qed.
 Print Assumptions C07_buy_one.
 
+(* closed formulas; hypotheses are the equations C07_buy_one and C07_fill_order produce, plus 'no multiplication rounds' and seller rate <= 1 (enforced by the message and genesis validators) *)
+Theorem C07_settlement_exact : forall s ask q st brate bf total total_cost fee_trunc srate sfee tfee fee payment pay,
+  in_ok q ->
+  
+  sub_total_cost ask q = LOk st -> buyer_rate s = LOk brate ->
+  mul st brate = Ok bf -> add st bf = Ok total ->
+  sdk_int_trim total = Ok total_cost -> sdk_int_trim bf = Ok fee_trunc ->
+  
+  seller_rate s = LOk srate -> mul st srate = Ok sfee -> add bf sfee = Ok tfee -> fee_amount tfee fee ->
+  sub st sfee = Ok payment -> sdk_int_trim payment = Ok pay ->
+  
+  mul_exact q (dec_of_int ask) = Ok st -> mul_exact st brate = Ok bf -> mul_exact st srate = Ok sfee ->
+  (dval srate <= 1)%Q ->
+  let X := (dval q * inject_Z ask)%Q in let b := dval brate in let r := dval srate in
+  (0 <= X)%Q /\ (0 <= b)%Q /\ (0 <= r <= 1)%Q /\
+  
+  (dval st == X)%Q /\ (dval bf == X * b)%Q /\ (dval sfee == X * r)%Q /\
+  (dval total == X * (1 + b))%Q /\ (dval tfee == X * (b + r))%Q /\ (dval payment == X * (1 - r))%Q /\
+  
+  0 <= pay /\ (inject_Z pay <= X * (1 - r) < inject_Z pay + 1)%Q /\
+  
+  0 <= fee /\ (inject_Z fee <= X * (b + r) < inject_Z fee + 1)%Q /\
+  
+  (inject_Z total_cost <= X * (1 + b) < inject_Z total_cost + 1)%Q /\
+  (inject_Z fee_trunc <= X * b < inject_Z fee_trunc + 1)%Q /\
+  
+  (inject_Z (fee + pay) <= X * (1 + b))%Q /\ (X * (1 + b) - 2 < inject_Z (fee + pay))%Q /\
+  total_cost - 1 <= fee + pay <= total_cost.
+Proof. exact settlement_exact_values. Qed.
+Print Assumptions C07_settlement_exact.
+
+(* max fee (zero if absent) must cover the buyer fee rounded down *)
+Theorem C07_max_fee : forall s ask q st brate bf fee_trunc (mf : option coin) (denom : bytes),
+  in_ok q ->
+  sub_total_cost ask q = LOk st -> buyer_rate s = LOk brate -> sdk_int_trim bf = Ok fee_trunc ->
+  mul_exact q (dec_of_int ask) = Ok st -> mul_exact st brate = Ok bf ->
+  
+  match mf with None => fee_trunc <= 0 | Some c => c_denom c = denom /\ fee_trunc <= c_amount c end ->
+  let X := (dval q * inject_Z ask)%Q in let b := dval brate in
+  (inject_Z fee_trunc <= X * b < inject_Z fee_trunc + 1)%Q /\
+  fee_trunc <= max_fee_amount mf /\ (X * b < inject_Z (max_fee_amount mf) + 1)%Q.
+Proof. exact max_fee_exact. Qed.
+Print Assumptions C07_max_fee.
+
+(* general case: each Mul correct to 34 digits; Add, Sub exact; SdkIntTrim truncates *)
+Theorem C07_settlement_rounded : forall s ask q st brate bf total total_cost fee_trunc srate sfee tfee fee payment pay,
+  in_ok q ->
+  
+  sub_total_cost ask q = LOk st -> buyer_rate s = LOk brate ->
+  mul st brate = Ok bf -> add st bf = Ok total ->
+  sdk_int_trim total = Ok total_cost -> sdk_int_trim bf = Ok fee_trunc ->
+  
+  seller_rate s = LOk srate -> mul st srate = Ok sfee -> add bf sfee = Ok tfee -> fee_amount tfee fee ->
+  sub st sfee = Ok payment -> sdk_int_trim payment = Ok pay ->
+  (dval srate <= 1)%Q ->
+  let X := (dval q * inject_Z ask)%Q in let b := dval brate in let r := dval srate in
+  let u_st := ((1 # 2) * q10 ^ dexp st)%Q in
+  let u_bf := ((1 # 2) * q10 ^ dexp bf)%Q in
+  let u_sf := ((1 # 2) * q10 ^ dexp sfee)%Q in
+  let E_pay := (u_st * (1 - r) + u_sf)%Q in
+  let E_fee := (u_st * (b + r) + u_bf + u_sf)%Q in
+  let E_tot := (u_st * (1 + b) + u_bf)%Q in
+  let E_bf := (u_st * b + u_bf)%Q in
+  (0 <= X)%Q /\ (0 <= b)%Q /\ (0 <= r <= 1)%Q /\
+  
+  (Qabs (dval st - X) <= u_st)%Q /\
+  (Qabs (dval bf - X * b) <= E_bf)%Q /\
+  (Qabs (dval sfee - X * r) <= u_st * r + u_sf)%Q /\
+  (Qabs (dval total - X * (1 + b)) <= E_tot)%Q /\
+  (Qabs (dval tfee - X * (b + r)) <= E_fee)%Q /\
+  (Qabs (dval payment - X * (1 - r)) <= E_pay)%Q /\
+  
+  0 <= pay /\ (X * (1 - r) - E_pay - 1 < inject_Z pay <= X * (1 - r) + E_pay)%Q /\
+  0 <= fee /\ (X * (b + r) - E_fee - 1 < inject_Z fee <= X * (b + r) + E_fee)%Q /\
+  (X * (1 + b) - E_tot - 1 < inject_Z total_cost <= X * (1 + b) + E_tot)%Q /\
+  (X * b - E_bf - 1 < inject_Z fee_trunc <= X * b + E_bf)%Q /\
+  (Qabs (inject_Z pay - X * (1 - r)) < 1 + E_pay)%Q /\
+  (Qabs (inject_Z fee - X * (b + r)) < 1 + E_fee)%Q /\
+  
+  (X * (1 + b) - E_tot - 2 < inject_Z (fee + pay) <= X * (1 + b) + E_tot)%Q /\
+  total_cost - 1 <= fee + pay <= total_cost.
+Proof. exact settlement_rounded_values. Qed.
+Print Assumptions C07_settlement_rounded.
+
+Theorem C07_subtotal_is_quantity_times_ask : forall ask q st,
+  sub_total_cost ask q = LOk st -> 0 < ask /\ mul q (dec_of_int ask) = Ok st.
+Proof. exact sub_total_cost_unfold. Qed.
+Print Assumptions C07_subtotal_is_quantity_times_ask.
+
+(* non-vacuity: 2.5 credits at 1000000, rates 0.01 / 0.02: fee 75000, pay 2450000, total cost 2525000 *)
+Example C07_settlement_example : forall s0,
+  posfixed P (b "2.5") = Ok (mkDec false 25 (-1)) /\
+  exact_hyps (with_rates "0.01" "0.02" s0) 1000000
+    (mkDec false 25 (-1))                          
+    (mkDec false 25000000 (-1))                    
+    (mkDec false 1 (-2)) (mkDec false 25000000 (-3))         
+    (mkDec false 2525000000 (-3)) 2525000 25000    
+    (mkDec false 2 (-2)) (mkDec false 50000000 (-3))         
+    (mkDec false 75000000 (-3)) 75000              
+    (mkDec false 2450000000 (-3)) 2450000.
+Proof. exact settlement_example. Qed.
+Print Assumptions C07_settlement_example.
+
+Example C07_debit_may_be_one_below_total_cost : forall s0,
+  exact_hyps (with_rates "0.01" "0.02" s0) 333333
+    (mkDec false 25 (-1))
+    (mkDec false 8333325 (-1))
+    (mkDec false 1 (-2)) (mkDec false 8333325 (-3))
+    (mkDec false 841665825 (-3)) 841665 8333
+    (mkDec false 2 (-2)) (mkDec false 16666650 (-3))
+    (mkDec false 24999975 (-3)) 24999
+    (mkDec false 816665850 (-3)) 816665 /\
+  24999 + 816665 = 841665 - 1.
+Proof. exact settlement_example_debit_below_total_cost. Qed.
+Print Assumptions C07_debit_may_be_one_below_total_cost.
+
+(* REFUTATION of 'never more than the exact total' when a rate has more than 34 significant digits (F9) *)
+Example C07_buyer_debit_bound_refuted_beyond_34_digits : forall s0,
+  let s := with_rates "0.9999999999999999999999999999999999995" "0" s0 in
+  let q := mkDec false 1 0 in let ask := 1000000 in
+  let st := mkDec false 1000000 0 in
+  let brate := mkDec false 9999999999999999999999999999999999995 (-37) in
+  let bf := mkDec false 1000000000000000000000000000000000 (-27) in
+  let total := mkDec false 2000000000000000000000000000000000 (-27) in
+  let srate := mkDec false 0 0 in let sfee := mkDec false 0 0 in
+  let tfee := bf in let payment := st in
+  let fee := 1000000 in let pay := 1000000 in
+  (in_ok q /\ sub_total_cost ask q = LOk st /\ buyer_rate s = LOk brate /\
+   mul st brate = Ok bf /\ add st bf = Ok total /\ sdk_int_trim total = Ok 2000000 /\ sdk_int_trim bf = Ok 1000000 /\
+   seller_rate s = LOk srate /\ mul st srate = Ok sfee /\ add bf sfee = Ok tfee /\ fee_amount tfee fee /\
+   sub st sfee = Ok payment /\ sdk_int_trim payment = Ok pay /\ (dval srate <= 1)%Q) /\
+  mul_exact st brate = Err ERounded /\
+  (dval q * inject_Z ask * (1 + dval brate) < inject_Z (fee + pay))%Q.
+Proof. exact rounded_debit_exceeds_exact_total. Qed.
+Print Assumptions C07_buyer_debit_bound_refuted_beyond_34_digits.
+
 (* subtotal = quantity * ask price, to 34 digits *)
 Theorem C07_subtotal_value_partial : forall ask q st,
   dwf q -> sub_total_cost ask q = LOk st ->
@@ -90,7 +225,7 @@ Print Assumptions C07_subtotal_value_partial.
 (* seller fee, payment and the seller's coins *)
 Theorem C07_payment_value_partial : forall st rate sfee payment pay,
   dwf st -> dwf rate -> mul st rate = Ok sfee -> sub st sfee = Ok payment -> sdk_int_trim payment = Ok pay -> 0 <= pay ->
-  (* Mul: within half a unit in the last of 34 digits; Sub: exact; SdkIntTrim: truncation *)
+  
   (Qabs (dval sfee - dval st * dval rate) <= (1 # 2) * q10 ^ dexp sfee)%Q /\
   (dval payment == dval st - dval sfee)%Q /\
   (inject_Z pay <= Qabs (dval payment))%Q /\ (Qabs (dval payment) < inject_Z pay + 1)%Q.
